@@ -155,6 +155,13 @@ def discharge(vc, obls, wd, timeout=10, fuel=1, jobs=16, order=('z3new', 'z3', '
 
     def run(item):
         o, q = item
+        if o.expect == 'unsat':
+            ql = vc.query(o, fuel, noq=bool(vc.quant_defs), lite=True)
+            if ql is not None:
+                r0 = smt.solve(ql, wd, vc.fname + '##lite##' + o.name, min(timeout, 4), order=('z3new',))
+                if r0['status'] == 'unsat':
+                    r0['variant'] = 'goal-relevant unfoldings only'
+                    return o, r0
         if vc.quant_defs and o.expect == 'unsat':
             r0 = smt.solve(vc.query(o, fuel, noq=True), wd, vc.fname + '##noq##' + o.name, timeout, order=('z3new',))
             if r0['status'] == 'unsat':
